@@ -1,3 +1,4 @@
+import IrefVerif.Model.RelClass
 import IrefVerif.Lemmas.PopList
 import IrefVerif.Lemmas.EqKey
 import IrefVerif.Lemmas.SetterEqs
@@ -256,15 +257,6 @@ theorem rdsView_after_authority (atStart : Bool) (p : Text) (hp : PathText p)
           simp [List.append_assoc]
 
 /-! ## without an authority: RFC 3986 §5.2.4 whenever the result needs no shield -/
-
-/-- the normalised first segment could be misread in this context (empty where `//` would start an
-authority or the path would turn absolute; containing `:` at the very start of a relative reference) -/
-def needsShield (fa atStart : Bool) (p : Text) : Bool :=
-  match nsegs p with
-  | first :: _ =>
-    (first.isEmpty && (Path.is_relative p || !fa || (nsegs p).length == 1))
-      || (Path.is_relative p && atStart && Parse.first_segment_contains_colon first)
-  | [] => false
 
 theorem rdsView_no_shield (anch fa atStart : Bool) (p : Text) (hp : PathText p)
     (hns : needsShield fa atStart p = false) : rdsView anch fa atStart p = removeDots p := by
